@@ -169,6 +169,10 @@ def collect_sites(spec, data, trail, parent, key, e, layouts, out):  # noqa: C90
             t2 = (*trail, ItemKey(bad_key))
             out.append(Site(trail, (*trail, "<add-key>"), "bad_dict_key",
                             lambda: data.__setitem__(bad_key, sample_val), ("leaf", t2)))
+            if tspec.strip(s[2])[0] not in ("any", "object"):
+                # one item whose key and value are both invalid: two errors, one at ItemKey(key) and one at key
+                out.append(Site(trail, (*trail, "<add-key>"), "bad_dict_key_and_value",
+                                lambda: data.__setitem__(bad_key, BAD()), ("leaves", [t2, (*trail, bad_key)])))
         for k, x in list(data.items()):
             collect_sites(s[2], x, (*trail, k), data, k, e, layouts, out)
     elif tag == "model":
@@ -307,6 +311,9 @@ def check_case(ctx: runner.Ctx, case):  # noqa: C901, PLR0912, PLR0915
     for s in chosen:
         if s.expect[0] == "leaf":
             exp[trail_key(s.expect[1])] += 1
+        elif s.expect[0] == "leaves":
+            for tr in s.expect[1]:
+                exp[trail_key(tr)] += 1
         elif s.expect[0] == "missing":
             missing.setdefault(trail_key(s.expect[1]), set()).add(s.expect[2])
         else:
